@@ -7,10 +7,10 @@ package main
 
 import (
 	"fmt"
-	"verif/vlib"
 	"math"
 	"math/rand"
 	"sort"
+	"verif/vlib"
 )
 
 const eps = 2.220446049250313e-16
